@@ -84,6 +84,67 @@ pub fn real(input: &[u8]) -> Result<Vec<Item>, String> {
     Ok(out)
 }
 
+/// Like `real`, but the input arrives in pieces: after each piece `decode` is called until
+/// `None` (the decoder may keep state between calls), `decode_eof` after the last one.
+pub fn real_chunked(parts: &[&[u8]]) -> Result<Vec<Item>, String> {
+    let mut codec = LinesCodec::default();
+    let mut buf = BytesMut::new();
+    let mut out = vec![];
+    let total: usize = parts.iter().map(|p| p.len()).sum();
+    let fuel = total + 3;
+    let mut conv = |r: std::io::Result<Option<String>>, out: &mut Vec<Item>| -> bool {
+        match r {
+            Ok(Some(s)) => {
+                out.push(Item::Line(s));
+                true
+            }
+            Ok(None) => false,
+            Err(_) => {
+                out.push(Item::Invalid);
+                true
+            }
+        }
+    };
+    for p in parts {
+        buf.extend_from_slice(p);
+        let mut n = 0;
+        while conv(codec.decode(&mut buf), &mut out) {
+            n += 1;
+            if n > fuel {
+                return Err("decode did not reach None".into());
+            }
+        }
+    }
+    let mut n = 0;
+    while conv(codec.decode_eof(&mut buf), &mut out) {
+        n += 1;
+        if n > fuel {
+            return Err("decode_eof did not reach None".into());
+        }
+    }
+    Ok(out)
+}
+
+fn check_chunked(input: &[u8], cuts: &[usize]) -> Option<Violation> {
+    let mut parts: Vec<&[u8]> = vec![];
+    let mut prev = 0;
+    for c in cuts {
+        parts.push(&input[prev..*c]);
+        prev = *c;
+    }
+    parts.push(&input[prev..]);
+    let exp = reference(input);
+    let got = mcutil::quiet_catch(|| real_chunked(&parts));
+    match got {
+        Ok(Ok(g)) if g == exp => None,
+        other => Some(Violation {
+            signature: "decode:depends-on-how-the-input-is-fed".into(),
+            summary: format!("LinesCodec fed {:?} in pieces cut at {:?} gives {:?}, reference {:?}", String::from_utf8_lossy(input), cuts, other.map_err(|_| "panic"), exp),
+            replay: json!({"kind": "chunked", "input": input, "cuts": cuts}),
+        }),
+    }
+}
+
 fn items_json(v: &[Item]) -> Value {
     Value::Array(
         v.iter()
@@ -162,6 +223,11 @@ pub fn run(args: &Args) -> i32 {
     if let Some(p) = &args.replay {
         let r = mcutil::load_replay(p);
         let v = match r["kind"].as_str() {
+            Some("chunked") => {
+                let input: Vec<u8> = r["input"].as_array().unwrap().iter().map(|b| b.as_u64().unwrap() as u8).collect();
+                let cuts: Vec<usize> = r["cuts"].as_array().unwrap().iter().map(|b| b.as_u64().unwrap() as usize).collect();
+                check_chunked(&input, &cuts)
+            }
             Some("decode") => {
                 let input: Vec<u8> = r["input"].as_array().unwrap().iter().map(|b| b.as_u64().unwrap() as u8).collect();
                 println!("input     {:?}", String::from_utf8_lossy(&input));
@@ -204,11 +270,13 @@ pub fn run(args: &Args) -> i32 {
         with_error: u64,
         with_cr_strip: u64,
         with_eof_line: u64,
+        chunked: u64,
         vios: Vec<Violation>,
         samples: Vec<Value>,
     }
+    let chunk_len = args.opt_usize("chunklen", args.tier.pick(7, 8));
     let parts = mcutil::par_map(args.threads, &work, |_, (l, prefix)| {
-        let mut p = Part { evals: 0, nontrivial: 0, with_error: 0, with_cr_strip: 0, with_eof_line: 0, vios: vec![], samples: vec![] };
+        let mut p = Part { evals: 0, nontrivial: 0, with_error: 0, with_cr_strip: 0, with_eof_line: 0, chunked: 0, vios: vec![], samples: vec![] };
         let free = l - prefix.len();
         let mut input = vec![0u8; *l];
         for (i, s) in prefix.iter().enumerate() {
@@ -232,6 +300,25 @@ pub fn run(args: &Args) -> i32 {
             if !input.is_empty() && input.last() != Some(&b'\n') {
                 p.with_eof_line += 1;
             }
+            // the same bytes arriving in two or three pieces (decoder state between calls)
+            if *l <= chunk_len {
+                for a in 1..*l {
+                    p.chunked += 1;
+                    if let Some(v) = check_chunked(&input, &[a]) {
+                        if !p.vios.iter().any(|x| x.signature == v.signature) {
+                            p.vios.push(v);
+                        }
+                    }
+                    for b in a + 1..*l {
+                        p.chunked += 1;
+                        if let Some(v) = check_chunked(&input, &[a, b]) {
+                            if !p.vios.iter().any(|x| x.signature == v.signature) {
+                                p.vios.push(v);
+                            }
+                        }
+                    }
+                }
+            }
             if let Some(v) = check_decode(&input) {
                 if p.vios.len() < 4 {
                     p.vios.push(v);
@@ -251,6 +338,7 @@ pub fn run(args: &Args) -> i32 {
     for p in parts {
         evals += p.evals;
         nontrivial += p.nontrivial;
+        rep.add("chunked_feedings", p.chunked);
         rep.add("inputs_with_invalid_utf8_frame", p.with_error);
         rep.add("inputs_with_cr_strip", p.with_cr_strip);
         rep.add("inputs_with_unterminated_tail", p.with_eof_line);
@@ -325,9 +413,10 @@ pub fn run(args: &Args) -> i32 {
     rep.set("roundtrip_sequences", rt_cnt);
     rep.set("roundtrip_sequences_eligible_for_identity", rt_elig);
     rep.sample(json!({"roundtrip": ["a\r\né", "", "é"], "note": "ineligible (contains LF): compared with the reference splitter only"}));
-    rep.set("evaluations", evals + rt_cnt);
+    let chunked = rep.get_u64("chunked_feedings");
+    rep.set("evaluations", evals + rt_cnt + chunked);
     rep.set("distinct_nontrivial", nontrivial + rt_elig);
-    rep.set("rule", format!("every byte string of length 0..={max_len} over {{a,CR,LF,C3,A9,FF}} decoded by the real LinesCodec (decode until None, decode_eof until None) and compared with an independent splitter; every sequence of <=3 strings of <={l} chars over {{a,CR,LF,e-acute}} encoded and decoded back. Inputs are distinct by construction; non-trivial = the reference yields at least one frame or error (decode part) / the sequence is eligible for the identity round trip (round-trip part)."));
+    rep.set("rule", format!("every byte string of length 0..={max_len} over {{a,CR,LF,C3,A9,FF}} decoded by the real LinesCodec (decode until None, decode_eof until None) and compared with an independent splitter; every string of length <= {chunk_len} additionally fed in every 2- and 3-piece split (decode until None after each piece); every sequence of <=3 strings of <={l} chars over {{a,CR,LF,e-acute}} encoded and decoded back. Inputs are distinct by construction; non-trivial = the reference yields at least one frame or error (decode part) / the sequence is eligible for the identity round trip (round-trip part)."));
     rep.set("exhaustive", true);
     rep.assume("the reference splitter (25 lines, c15.rs::reference) states the property correctly: final unterminated line is reported when non-empty after stripping one trailing CR");
     rep.finish()
